@@ -1512,8 +1512,36 @@ fn run_resolve(r: &Req) -> String {
         let b = r.fs(&format!("b_{}", k));
         let okq = solver.update_q(&q).is_ok();
         let okb = solver.update_b(&b).is_ok();
+        // optional matrix updates in index/value forms with the indices in the given
+        // (shuffled) order: A at positions Aidx_k, P rescaled as a whole by Pscale_k
+        let mut okm = true;
+        if r.has(&format!("Aidx_{}", k)) {
+            let idx = r.us(&format!("Aidx_{}", k));
+            let val = r.fs(&format!("Aval_{}", k));
+            okm &= match r.u(&format!("Aform_{}", k)) {
+                2 => solver.update_A(&(idx.clone(), val.clone())).is_ok(),
+                _ => solver.update_A(&std::iter::zip(&idx, &val)).is_ok(),
+            };
+        }
+        if r.has(&format!("Pscale_{}", k)) {
+            let sc = r.f(&format!("Pscale_{}", k));
+            let pt = user_triu(&p.P);
+            let mut cur: Vec<f64> = pt.nzval.clone();
+            for j in 1..k {
+                if r.has(&format!("Pscale_{}", j)) {
+                    let f = r.f(&format!("Pscale_{}", j));
+                    cur.iter_mut().for_each(|v| *v *= f);
+                }
+            }
+            let idx = r.us(&format!("Pidx_{}", k));
+            let val: Vec<f64> = idx.iter().map(|&i| cur[i] * sc).collect();
+            okm &= match r.u(&format!("Pform_{}", k)) {
+                2 => solver.update_P(&(idx.clone(), val.clone())).is_ok(),
+                _ => solver.update_P(&std::iter::zip(&idx, &val)).is_ok(),
+            };
+        }
         let (o, _) = solve_once(&mut solver);
-        out.push_str(&format!(" upd_{}={} ", k, (okq && okb) as usize));
+        out.push_str(&format!(" upd_{}={} ", k, (okq && okb && okm) as usize));
         out.push_str(&render_solve(&o, &format!("_{}", k)));
     }
     out
@@ -1924,6 +1952,19 @@ fn oracle_resolve(r: &Req, out: &str) -> Result<(), String> {
             }
             p.q = r.fs(&format!("q_{}", k));
             p.b = r.fs(&format!("b_{}", k));
+            if r.has(&format!("Aidx_{}", k)) {
+                let idx = r.us(&format!("Aidx_{}", k));
+                let val = r.fs(&format!("Aval_{}", k));
+                for (i, v) in idx.iter().zip(&val) {
+                    p.A.nzval[*i] = *v;
+                }
+            }
+            if r.has(&format!("Pscale_{}", k)) {
+                // the solver holds the upper triangle; the oracle evaluates with the same
+                let sc = r.f(&format!("Pscale_{}", k));
+                p.P = user_triu(&p.P);
+                p.P.nzval.iter_mut().for_each(|v| *v *= sc);
+            }
         }
         let resp = parse_solve_sfx(out, &format!("_{}", k)).ok_or("unparsable history response")?;
         check_report(r.str("check"), &p, &st, &resp).map_err(|e| format!("solve #{} of the history: {}", k, e))?;
@@ -2399,6 +2440,32 @@ pub fn submit_history(s: &mut Session, h: &History, st: &Sets, check: &str) -> S
     let mut l = st.put(put_prob(Line::new("resolve"), &h.base)).s("check", check).u("steps", h.steps.len());
     for (k, (q, b)) in h.steps.iter().enumerate() {
         l = l.fs(&format!("q_{}", k + 1), q).fs(&format!("b_{}", k + 1), b);
+        // in a third of the steps also update matrix entries through the index/value forms,
+        // indices in shuffled (non-ascending) order
+        if s.rng.bool(0.35) && !h.base.A.nzval.is_empty() {
+            let nnz = h.base.A.nzval.len();
+            let mut idx: Vec<usize> = (0..nnz).filter(|_| s.rng.bool(0.5)).collect();
+            if idx.is_empty() {
+                idx.push(s.rng.below(nnz));
+            }
+            for i in (1..idx.len()).rev() {
+                let j = s.rng.below(i + 1);
+                idx.swap(i, j);
+            }
+            let val: Vec<f64> = idx.iter().map(|&i| h.base.A.nzval[i] * s.rng.uniform(0.8, 1.25)).collect();
+            l = l.us(&format!("Aidx_{}", k + 1), &idx).fs(&format!("Aval_{}", k + 1), &val).u(&format!("Aform_{}", k + 1), 2 + s.rng.below(2));
+            s.count("history:update_A-index-form");
+        }
+        let ptn = user_triu(&h.base.P).nzval.len();
+        if s.rng.bool(0.25) && ptn > 0 {
+            let mut idx: Vec<usize> = (0..ptn).collect();
+            for i in (1..idx.len()).rev() {
+                let j = s.rng.below(i + 1);
+                idx.swap(i, j);
+            }
+            l = l.f(&format!("Pscale_{}", k + 1), s.rng.uniform(0.5, 2.0)).us(&format!("Pidx_{}", k + 1), &idx).u(&format!("Pform_{}", k + 1), 2 + s.rng.below(2));
+            s.count("history:update_P-index-form");
+        }
     }
     let out = s.submit(l.done());
     s.count(&format!("history:{}", h.kinds));
